@@ -189,6 +189,13 @@ Theorem C20_plain_normalisation :
   forall v m s, ~ (s == 0)%Q -> (Gen_ds_cifar100_norm.plain_normalise v m s == (v / 255 - m) / s)%Q.
 Proof. exact plain_normalisation. Qed.
 
+(* recognised on this run: the Shakespeare / Stack Overflow / EMNIST dataset modules use no hash(), id(), time, uuid,
+   random, os.environ or np.random: their outputs cannot differ between processes (exercised: kind xproc) *)
+Theorem C20_preprocessors_process_independent :
+  SH.shakespeare_is_process_independent = true /\ SO.stackoverflow_is_process_independent = true /\
+  EM.emnist_is_process_independent = true.
+Proof. exact preprocessors_process_independent. Qed.
+
 (* the hypotheses of C20_domain_ranges / C20_labels_in_vocab are satisfiable by non-trivial instances *)
 Example C20_hypotheses_example :
   (length [48; 49; 50; 51; 52; 53; 54; 55; 56; 57; 97; 98; 99; 100; 101; 102; 58; 102] = 18%nat /\ length [95; 48; 55] = 3%nat /\
@@ -232,3 +239,4 @@ Print Assumptions C20_lm_train_loss_row_independent.
 Print Assumptions C20_lm_train_loss_ignores_pad_positions.
 Print Assumptions C20_table_last_occurrence_wins.
 Print Assumptions C20_plain_normalisation.
+Print Assumptions C20_preprocessors_process_independent.
